@@ -48,6 +48,26 @@ def neutralise_call(callee_suffix, nth=0, new="core::hint::black_box"):
     return fn
 
 
+def retarget_call(callee_suffix, new, dest_ty, nth=0):
+    """the nth call to *callee_suffix becomes a call to `new` whose result has type dest_ty"""
+    def fn(j):
+        k = 0
+        for bl in j["blocks"]:
+            t = bl["t"]
+            if t["k"] == "call" and (t.get("callee") or "").endswith(callee_suffix):
+                if k == nth:
+                    t["callee"] = new
+                    t["orig"] = new
+                    d = t.get("dest") or {}
+                    if "l" in d and not d.get("p"):
+                        j["locals"][d["l"]]["ty"] = dest_ty
+                    return
+                k += 1
+        raise ControlSkipped("no call to *%s in %s" % (callee_suffix, j["id"]))
+
+    return fn
+
+
 def rename(new_id):
     def fn(j):
         j["id"] = new_id
@@ -167,6 +187,7 @@ CONTROLS = {
         ("R6: classification of the syscall result neutralised", [("nomt::io::platform::run_worker", neutralise_call("IoKind::get_result"))], "R6|"),
         ("R6c: a failed completion is normalised to -9 instead of -1", [("nomt::io::platform::run_worker", replace_const("-1_i32", 4294967287, "-9_i32"))], "failed-completion-can-fail"),
         ("R4: poisoning store neutralised", [("nomt::store::Store::commit", neutralise_call("::store"))], "R4|store::Store::commit"),
+        ("R8: write_all of the rollback record becomes a plain write whose count is dropped", [("nomt::seglog::segment_rw::SegmentFileWriter::write_payload", retarget_call("::write_all", "<std::fs::File as std::io::Write>::write", "core::result::Result<usize, std::io::error::Error>"))], "R8|"),
     ],
     "C15": [
         ("L1: lock order of Rollback::commit reversed", [("nomt::rollback::Rollback::commit", swap_args_of_calls("mutex::Mutex::lock"))], "L1|lock-order|cycle"),
@@ -184,11 +205,13 @@ CONTROLS = {
     "C19": [
         ("U1: the set_tombstone of prepare_sync neutralised", [("nomt::bitbox::DB::prepare_sync", neutralise_call("MetaMap::set_tombstone"))], "U1|"),
         ("U2: FreeList::commit in finish neutralised", [("nomt::beatree::allocator::SyncFinisher::finish", neutralise_call("FreeList::commit"))], "U2|"),
+        ("U5: the release of the emptied head page in FreeList::pop neutralised", [("nomt::beatree::allocator::free_list::FreeList::pop", neutralise_call("Vec::push"))], "U5|"),
         ("U4: the overflow test of keep_up_to neutralised", [("nomt::beatree::ops::update::leaf_updater::LeafUpdater::keep_up_to", neutralise_call("BaseLeaf::cell"))], "U4|"),
     ],
     "C20": [
         ("D2: flock flags changed to LOCK_EX", [("nomt::sys::unix::try_lock_exclusive::{closure#0}", set_const_in_call("::flock", 1, 2))], "D2|"),
         ("D1: Flock::lock in create neutralised", [("nomt::store::create", neutralise_call("Flock::lock"))], "D1|store::create"),
+        ("D6: a raw dup of a descriptor appears", [("nomt::sys::unix::unlock::{closure#0}", neutralise_call("::flock", 0, "libc::unix::dup"))], "D6|"),
     ],
 }
 
